@@ -1,22 +1,24 @@
 #!/bin/bash
 # two executables from the same harness TU:
 #   c16      plain -O2: deep BFS (timers live in a poisoned arena, dangling links are deterministic)
-#   c16asan  ASan: shallower BFS with every timer in its own exactly-sized heap block (use-after-free oracle)
+#   c16asan  clang++ -O2 -DNDEBUG under ASan: shallower BFS with every timer in its own exactly-sized heap block (use-after-free oracle)
 # The state key and one oracle read private members of timer_manager.h by name.  If that does not compile
 # (the names were refactored) the harness is rebuilt with -DC16_PUBLIC_ONLY: public API only, key = reference
 # state (+) every public observer.
 set -e
 . $MC/par.sh
 INC="-I$REPO -I$MC"
-AS="-O1 -g -fsanitize=address -fno-omit-frame-pointer"
+# variant build: the OTHER compiler, optimised, assertions compiled out (an assert with a side effect vanishes)
+AS="-O2 -g -fsanitize=address -fno-omit-frame-pointer -DNDEBUG"
 H=$VERIF/harness/c16/c16_timers.cpp
 par g++ -std=c++17 -O2 -g $INC -c $REPO/igris/container/dlist.cpp -o $BUILD/dlist.o
-par g++ -std=c++17 $AS $INC -c $REPO/igris/container/dlist.cpp -o $BUILD/dlista.o
+par clang++ -std=c++17 $AS $INC -c $REPO/igris/container/dlist.cpp -o $BUILD/dlista.o
+par clang $AS $INC -c $REPO/igris/datastruct/stimer.c -o $BUILD/stimera.o
 par gcc -O2 -g $INC -c $REPO/igris/datastruct/stimer.c -o $BUILD/stimer.o
 par g++ -std=c++17 -O2 -c -I$MC $MC/mc.cpp -o $BUILD/mc.o
 ( g++ -std=c++17 -O2 -g $INC -fno-access-control -c $H -o $BUILD/h.o 2>$BUILD/h.err ) &
 P1=$!
-( g++ -std=c++17 $AS $INC -fno-access-control -DC16_ASAN -c $H -o $BUILD/ha.o 2>$BUILD/ha.err ) &
+( clang++ -std=c++17 $AS $INC -fno-access-control -DC16_ASAN -c $H -o $BUILD/ha.o 2>$BUILD/ha.err ) &
 P2=$!
 FULL=1
 wait $P1 || FULL=0
@@ -24,7 +26,7 @@ wait $P2 || FULL=0
 if [ $FULL = 0 ]; then
   # no -fno-access-control here: this build must compile against the public interface alone
   par g++ -std=c++17 -O2 -g $INC -DC16_PUBLIC_ONLY -c $H -o $BUILD/h.o
-  par g++ -std=c++17 $AS $INC -DC16_PUBLIC_ONLY -DC16_ASAN -c $H -o $BUILD/ha.o
+  par clang++ -std=c++17 $AS $INC -DC16_PUBLIC_ONLY -DC16_ASAN -c $H -o $BUILD/ha.o
   if ! parwait; then cat $BUILD/h.err $BUILD/ha.err; exit 1; fi
   echo "NOTE: private state names changed, key built from public observers only" | tee $BUILD/notes.txt
 else
@@ -32,7 +34,7 @@ else
   parwait
 fi
 par g++ $BUILD/h.o $BUILD/dlist.o $BUILD/stimer.o $BUILD/mc.o -o $BUILD/c16
-par g++ -fsanitize=address $BUILD/ha.o $BUILD/dlista.o $BUILD/stimer.o $BUILD/mc.o -o $BUILD/c16asan
+par clang++ -fsanitize=address $BUILD/ha.o $BUILD/dlista.o $BUILD/stimera.o $BUILD/mc.o -o $BUILD/c16asan
 parwait
 echo "timers_asan $BUILD/c16asan" > $BUILD/runs.txt
 echo "timers $BUILD/c16" >> $BUILD/runs.txt
